@@ -10,6 +10,8 @@
 #include <mutex>
 #include <sstream>
 #include <thread>
+#include <sys/wait.h>
+#include <unistd.h>
 #include "common/trace.hpp"
 using namespace vf;
 
@@ -42,49 +44,63 @@ int main(int argc, char **argv) {
         }
         if (per.empty() || per.size() > static_cast<size_t>(maxThreads)) continue;
         fprintf(stderr, "RUNNING %s\n", path.c_str());
-        // reference: every script alone
-        std::vector<std::string> alone(per.size()), together(per.size());
-        for (size_t t = 0; t < per.size(); ++t) alone[t] = traceOf(per[t], scratch[maxThreads]);
-        // concurrent run
-        std::atomic<int> ready(0); std::atomic<bool> go(false);
-        std::vector<std::vector<Span>> spans(per.size());
-        auto t0 = std::chrono::steady_clock::now();
-        std::vector<std::thread> th;
-        for (size_t t = 0; t < per.size(); ++t) {
-            th.emplace_back([&, t] {
-                Rng r(static_cast<uint64_t>(seed) * 1315423911ULL + t);
-                TraceOpts o;
-                o.beforeOp = [&r](size_t) {
-                    uint64_t k = r.below(8);
-                    if (k == 0) std::this_thread::yield();
-                    else if (k == 1) { volatile unsigned x = 0; for (unsigned i = 0, n = static_cast<unsigned>(r.below(20000)); i < n; ++i) x += i; }
-                    else if (k == 2) std::this_thread::sleep_for(std::chrono::microseconds(r.below(200)));
-                };
-                double cur = 0;
-                o.ioMark = [&](const std::string &, bool begin) {
-                    double now = std::chrono::duration<double>(std::chrono::steady_clock::now() - t0).count();
-                    if (begin) cur = now; else spans[t].push_back({cur, now});
-                };
-                ready.fetch_add(1);
-                while (!go.load()) std::this_thread::yield();
-                together[t] = traceOf(per[t], scratch[t], o);
-            });
-        }
-        while (ready.load() < static_cast<int>(per.size())) std::this_thread::yield();
-        go.store(true);
-        for (auto &x : th) x.join();
-        ++reps; threadsRun += static_cast<long long>(per.size());
-        bool ov = false;
-        for (size_t a = 0; a < per.size() && !ov; ++a) for (size_t b = a + 1; b < per.size() && !ov; ++b)
-            for (auto &sa : spans[a]) for (auto &sb : spans[b]) if (sa.b < sb.e && sb.b < sa.e) ov = true;
-        if (ov) { ++overlapping; if (samples.size() < 2) samples.push_back(text.substr(0, 1500)); }
-        for (size_t t = 0; t < per.size(); ++t)
-            if (alone[t] != together[t]) {
-                failCase = path; rc = 1;
-                failMsg = "thread " + std::to_string(t) + " of " + std::to_string(per.size()) + " observed results that differ from running its script alone: " + firstDiff(alone[t], together[t]);
-                break;
+        // every repetition runs in a fresh child process (the parent has no threads): function-local statics and other lazily
+        // initialised hidden state are in their initial state when the threads start, and the concurrent phase comes FIRST
+        const std::string resPath = scratch[maxThreads] + "/rep_result.txt";
+        remove(resPath.c_str());
+        fflush(stdout); fflush(stderr);
+        pid_t pid = fork();
+        if (pid == 0) {
+            std::vector<std::string> alone(per.size()), together(per.size());
+            std::atomic<int> ready(0); std::atomic<bool> go(false);
+            std::vector<std::vector<Span>> spans(per.size());
+            auto t0 = std::chrono::steady_clock::now();
+            std::vector<std::thread> th;
+            for (size_t t = 0; t < per.size(); ++t) {
+                th.emplace_back([&, t] {
+                    Rng r(static_cast<uint64_t>(seed) * 1315423911ULL + t);
+                    TraceOpts o;
+                    o.beforeOp = [&r](size_t) {
+                        uint64_t k = r.below(8);
+                        if (k == 0) std::this_thread::yield();
+                        else if (k == 1) { volatile unsigned x = 0; for (unsigned i = 0, n = static_cast<unsigned>(r.below(20000)); i < n; ++i) x += i; }
+                        else if (k == 2) std::this_thread::sleep_for(std::chrono::microseconds(r.below(200)));
+                    };
+                    double cur = 0;
+                    o.ioMark = [&](const std::string &, bool begin) {
+                        double now = std::chrono::duration<double>(std::chrono::steady_clock::now() - t0).count();
+                        if (begin) cur = now; else spans[t].push_back({cur, now});
+                    };
+                    ready.fetch_add(1);
+                    while (!go.load()) std::this_thread::yield();
+                    together[t] = traceOf(per[t], scratch[t], o);
+                });
             }
-        if (rc) break;
+            while (ready.load() < static_cast<int>(per.size())) std::this_thread::yield();
+            go.store(true);
+            for (auto &x : th) x.join();
+            // reference: every script alone, afterwards
+            for (size_t t = 0; t < per.size(); ++t) alone[t] = traceOf(per[t], scratch[maxThreads]);
+            bool ov = false;
+            for (size_t a = 0; a < per.size() && !ov; ++a) for (size_t b = a + 1; b < per.size() && !ov; ++b)
+                for (auto &sa : spans[a]) for (auto &sb : spans[b]) if (sa.b < sb.e && sb.b < sa.e) ov = true;
+            std::string msg;
+            for (size_t t = 0; t < per.size(); ++t)
+                if (alone[t] != together[t]) { msg = "thread " + std::to_string(t) + " of " + std::to_string(per.size()) + " observed results that differ from running its script alone: " + firstDiff(alone[t], together[t]); break; }
+            writeFileText(resPath, std::string(ov ? "1" : "0") + "\n" + msg + "\n");
+            fflush(stdout); fflush(stderr);
+            _exit(msg.empty() ? 0 : 1);
+        }
+        int status = 0; waitpid(pid, &status, 0);
+        ++reps; threadsRun += static_cast<long long>(per.size());
+        std::string rtext; readFileText(resPath, rtext);
+        const bool ov = !rtext.empty() && rtext[0] == '1';
+        if (ov) { ++overlapping; if (samples.size() < 2) samples.push_back(text.substr(0, 1500)); }
+        if (WIFEXITED(status) && WEXITSTATUS(status) == 0) continue;
+        failCase = path;
+        if (WIFEXITED(status) && WEXITSTATUS(status) == 1) { size_t nl = rtext.find('\n'); failMsg = nl == std::string::npos ? "" : rtext.substr(nl + 1); rc = 1; }
+        else { rc = WIFEXITED(status) ? WEXITSTATUS(status) : 70; failMsg = "child terminated abnormally (status " + std::to_string(status) + ")"; }
+        break;
     }
     std::ostringstream js;
     js << "{\"repetitions\":" << reps << ",\"overlapping\":" << overlapping << ",\"threads_run\":" << threadsRun << ",\"ok\":" << (rc == 0 ? "true" : "false")
